@@ -46,7 +46,7 @@ func init() {
 }
 
 // shapes: 0 transaction fields, 1 log with an indexed selected input,
-// 2 log with a non-indexed selected input, 3 trace fields
+// 2 log with a non-indexed selected input, 3 trace fields, 4 log whose selected value is a component of a tuple array
 func zzShape(name, table string, shape, userIdentity, order int) Integration {
 	ig := Integration{Name: name, Enabled: true, Table: wpg.Table{Name: table}}
 	var cols []string
@@ -64,6 +64,9 @@ func zzShape(name, table string, shape, userIdentity, order int) Integration {
 	case 3:
 		ig.Block = []dig.BlockData{{Name: "trace_action_from", Column: "t_from"}, {Name: "trace_action_value", Column: "t_val"}}
 		cols = []string{"t_from", "t_val"}
+	case 4: // the only selected non-indexed value sits inside an array of tuples
+		ig.Event = dig.Event{Name: "Ev", Type: "event", Inputs: []dig.Input{{Name: "a", Type: "address", Indexed: true}, {Name: "fills", Type: "tuple[]", Components: []dig.Input{{Name: "amt", Type: "uint256", Column: "c_amt"}, {Name: "who", Type: "address"}}}}}
+		cols = []string{"c_amt"}
 	}
 	if userIdentity == 1 {
 		// the user already declares an identity column and its block field
@@ -86,7 +89,7 @@ func zzKeyNeeded(shape int) []string {
 	switch shape {
 	case 1:
 		k = append(k, "log_idx")
-	case 2:
+	case 2, 4:
 		k = append(k, "log_idx", "abi_idx")
 	case 3:
 		k = append(k, "trace_action_idx")
@@ -200,7 +203,8 @@ func ZZ_C16_Schema(shapeA, shapeB, shared int) {
 	// migration against an existing database: each table exists with a prefix of its columns
 	conn := &zzSchemaConn{existing: map[string][]string{}}
 	for t, cols := range created {
-		k := zzvrf.Pick("existing-columns:"+t, len(cols)+1)
+		// the table does not exist yet, exists with half of its columns, or with all of them
+		k := []int{0, len(cols) / 2, len(cols)}[zzvrf.Pick("existing-columns:"+t, 3)]
 		conn.existing[t] = append([]string(nil), cols[:k]...)
 	}
 	merr := Migrate(context.Background(), conn, conf)
